@@ -1499,6 +1499,15 @@ def table_row_check_attrs(ctx: "Wtp") -> None:
     if len(node.children) < 1:
         return
 
+    if any(
+        isinstance(x, WikiNode)
+        and x.kind in (NodeKind.TABLE_CELL, NodeKind.TABLE_HEADER_CELL)
+        for x in node.children
+    ):
+        # The row already has cells: what follows "|-" has been dealt with,
+        # and a finished cell such as "|x=1" is not an attribute assignment
+        return
+
     check, attribute_string = check_for_attributes(ctx, node)
     if not check:
         return
